@@ -20,8 +20,14 @@ TREES = {
     "Tc": {"m": "v", "n/o": "crlf"},
 }
 SCENARIOS = ["stage-transfer", "index-save", "store-transfer", "upload", "verify-transfer",
-             "index-save-2fs", "index-save-verify", "verify-transfer-dir", "index-save-2caches", "bulk-transfer"]
+             "index-save-2fs", "index-save-verify", "verify-transfer-dir", "index-save-2caches", "bulk-transfer",
+             "stage-transfer-legacy"]
 MEM_ROOT = "memory://c15-second-fs"
+
+
+CONTENTS = dict(CONTENTS, latenul=b"row\r\n" * 120 + b"\x00tail\r\n", lonecr=b"10%\r50%\r100%\r\ndone\r\n")
+MD5 = dict(MD5, latenul=ref.md5(CONTENTS["latenul"]), lonecr=ref.md5(CONTENTS["lonecr"]))
+TREES["Tl"] = {"p": "crlf", "q": "latenul", "s/r": "lonecr"}   # contents whose legacy digest differs from their md5
 
 
 def listing(t):
@@ -143,6 +149,13 @@ def body(root, cfg, phase, arm):
             src = make_odb("local", os.path.join(root, "src"))
             ids = {hi(o) for o in all_objects(t)}
             transfer(src, odb, ids, dest_index=idx, hardlink=False, verify=sc == "verify-transfer")
+        elif sc == "stage-transfer-legacy":
+            # the workspace is staged into the md5 store and then into a legacy (md5-dos2unix) store on the same state
+            staging, _m, obj = build(odb, ws, LFS, "md5")
+            transfer(staging, odb, {obj.hash_info}, shallow=False, hardlink=False)
+            odb2 = make_odb("local", os.path.join(root, "odb2"), state=state, hash_name="md5-dos2unix")
+            staging2, _m2, obj2 = build(odb2, ws, LFS, "md5-dos2unix")
+            transfer(staging2, odb2, {obj2.hash_info}, shallow=False, hardlink=False)
         elif sc == "verify-transfer-dir":
             src = make_odb("base", os.path.join(root, "src"))
             lc = make_odb("local", os.path.join(root, "listing-cache"))
@@ -166,10 +179,12 @@ def body(root, cfg, phase, arm):
     return "ok"
 
 
-def digest_ok(oid, data):
+def digest_ok(oid, data, alg="md5"):
     if not isinstance(data, bytes):
         return False
-    return ref.md5(data) == oid.split(".")[0]
+    if oid.endswith(".dir"):
+        return ref.md5(data) == oid.split(".")[0]
+    return ref.digest(alg, data) == oid.split(".")[0]
 
 
 def audit(root, cfg, when):
@@ -188,16 +203,17 @@ def audit(root, cfg, when):
             ssnap = objects_only(store_snapshot(odb_path))
             for oid, v in ssnap.items():
                 snap[oid if store == "odb" else f"{store}:{oid}"] = v
+            alg = "md5-dos2unix" if store == "odb2" and cfg["scenario"] == "stage-transfer-legacy" else "md5"
             for oid, (data, mode) in ssnap.items():
                 p = os.path.join(odb_path, oid[:2], oid[2:])
-                ok = digest_ok(oid, data)
+                ok = digest_ok(oid, data, alg)
                 try:
                     _m, hinfo = state.get(p, LFS)
                 except Exception:  # noqa: BLE001
                     hinfo = None
                 if hinfo is not None and isinstance(data, bytes):
                     # (rows of directory objects are written with or without the '.dir' suffix)
-                    actual = ref.md5(data)
+                    actual = ref.md5(data) if oid.endswith(".dir") else ref.digest(alg, data)
                     if hinfo.value.split(".")[0] != actual:
                         viol.append((f"state-vouches-for-mismatching-object/{when}",
                                      f"{oid[:10]} state says {hinfo.value[:10]} bytes hash to {actual[:10]}"))
@@ -281,6 +297,8 @@ def explore(cfg):
             v1, junk, _snap = audit(root, cfg, "after-crash")
             stats["junk_unprotected_tolerated"] += sum(1 for _o, m in junk if m != 0o444)
             for sig, d in v1:
+                if cfg["scenario"] == "stage-transfer-legacy":
+                    sig = f"{sig}/{cfg['scenario']}"
                 viol.append((sig, f"{d}; killed before event {n} {nxt} (previous {prev}) cfg={cfg}", where))
             # re-run the interrupted operation
             st2, inf2 = run_child(body, root, cfg, "rerun", drop_caps=caps)
@@ -347,8 +365,9 @@ def replay(case):
 def configs(tier):
     trees = ["Ta", "Tb"] + (["Tc"] if tier == "thorough" else [])
     yield {"scenario": "bulk-transfer", "tree": "Tbulk", "initial": "empty", "first": None, "caps": False}
+    yield {"scenario": "stage-transfer-legacy", "tree": "Tl", "initial": "empty", "first": None, "caps": False}
     for sc in SCENARIOS:
-        if sc == "bulk-transfer":
+        if sc in ("bulk-transfer", "stage-transfer-legacy"):
             continue
         for t in trees:
             if sc in ("index-save-2fs", "index-save-2caches") and second_fs_dir(t) is None:
